@@ -506,6 +506,27 @@ def warm_many_arms_scenario(rng, g):
     return {"cfg": g.cfg, "ops": ops}
 
 
+def long_batch_scenario(rng, g):
+    """every arm observed, then one partial_fit of more than 2^10 rows in which some observed arms do not occur (their
+    statistics stay, whatever depends on the total number of observations moves), then ordinary calls"""
+    arms = list(g.arms)
+    if len(arms) < 3:
+        arms = (arms + g.spare)[:3]
+        g.arms = list(arms)
+        g.cfg["arms"] = list(arms)
+    g.cfg["n_jobs"] = 1
+    g.cfg.pop("backend", None)
+
+    def batch(pool, k):
+        d = [pool[i % len(pool)] if i < len(pool) else rng.choice(pool) for i in range(k)]
+        return {"d": d, "r": [gen_reward(rng, g.lpk, g.binz) for _ in d], "c": [gen_row(rng, g.d) for _ in d] if g.contextual else None}
+    q = {"op": "pexp", "c": [gen_row(rng, g.d)] if g.contextual else None}
+    some = arms[:max(1, len(arms) - 2)]
+    ops = [dict(batch(arms, 2 * len(arms)), op="fit"), dict(q), dict(batch(some, rng.choice([1024, 1100, 1500])), op="pfit"), dict(q),
+           dict(batch(arms, 5), op="pfit"), dict(q), {"op": "pred", "c": q["c"]}]
+    return {"cfg": g.cfg, "ops": ops}
+
+
 def dead_feature_scenario(rng, g):
     """two features, the second never switched on in training, a regulariser of 2^-60: every arm's A is diagonal with a
     tiny entry, its inverse exact and huge there (condition number far beyond 1/eps, yet nothing is singular and nothing
@@ -555,6 +576,8 @@ def gen_scenario(seed, index, profile):
         return warm_many_arms_scenario(rng, g)
     if profile.get("dead_feature") and index % 40 == 17 and g.npk is None and g.lpk in LIN_KINDS:
         return dead_feature_scenario(rng, g)
+    if profile.get("long_batches") and index % 25 == 23 and g.npk is None:
+        return long_batch_scenario(rng, g)
     return g.build()
 
 
